@@ -14,6 +14,8 @@
 
 package plugin
 
+import "fmt"
+
 // MarshalRequest encodes a request with binary protocol.
 func MarshalRequest(req *Request) ([]byte, error) {
 	return req.FastAppend(nil), nil
@@ -37,8 +39,15 @@ func MarshalResponse(res *Response) ([]byte, error) {
 }
 
 // UnmarshalResponse decodes a response with binary protocol.
-func UnmarshalResponse(bs []byte) (*Response, error) {
-	res := NewResponse()
+func UnmarshalResponse(bs []byte) (res *Response, err error) {
+	// the fast codec may panic on malformed bytes (e.g. a type byte >= 0x80
+	// indexes a table with a negative int8): report that as a decode error
+	defer func() {
+		if r := recover(); r != nil {
+			res, err = nil, fmt.Errorf("malformed response: %v", r)
+		}
+	}()
+	res = NewResponse()
 	if _, err := res.FastRead(bs); err != nil {
 		return nil, err
 	}
